@@ -37,9 +37,10 @@ def partsAdded (form : MForm) : List Part := form.texts.map textPart ++ form.fil
 
 def isAlnum (c : UInt8) : Bool := isDigit c || isUpper c || isLower c
 
-/-- the boundary is non-empty alphanumeric (`gen_boundary`: 16 alphanumeric bytes) and the delimiter
+/-- `fresh` of the brief (the name `Atto.fresh` is taken by Lemmas/ChunkedFlat.lean):
+    the boundary is non-empty alphanumeric (`gen_boundary`: 16 alphanumeric bytes) and the delimiter
     `CRLF "--" b` occurs in no text value and in no file data -/
-def fresh (b : Bytes) (form : MForm) : Prop :=
+def mpFresh (b : Bytes) (form : MForm) : Prop :=
   b ≠ [] ∧ (∀ c ∈ b, isAlnum c = true) ∧
   (∀ t ∈ form.texts, occursIn (mpDelim b) t.2 = false) ∧
   (∀ f ∈ form.files, occursIn (mpDelim b) f.data = false)
@@ -135,6 +136,128 @@ example : (decodeChunks (writeBody { kind := .chunked, writes := mpWrites 7 (str
     (fun p => (p.1.flatten, p.2)) = some (mpBody (str "B7") C15.form, []) :=
   (C15_chunked_wire 7 _ _ (by decide)).2
 
+
+/-! ### (a) the round trip -/
+
+theorem alnum_ne_cr {b : Bytes} (h : ∀ c ∈ b, isAlnum c = true) : (13 : UInt8) ∉ b := by
+  intro hm
+  have := h 13 hm
+  revert this
+  decide
+
+/-- (a) The independent decoder, given the boundary, reads back exactly the parts that were added:
+    the texts in order, then the files last-added first, each file with its MIME type or
+    `application/octet-stream`.  The values and file data are arbitrary bytes (CR, LF, dashes,
+    delimiter look-alikes of another boundary …) as long as the delimiter itself does not occur. -/
+theorem C15_roundtrip (b : Bytes) (form : MForm) (hf : mpFresh b form) (hv : validNames form) :
+    decodeMultipart b (mpBody b form) = some (parts form) := by
+  obtain ⟨texts, files⟩ := form
+  obtain ⟨_, hal, hft, hff⟩ := hf
+  obtain ⟨hvt, hvf⟩ := hv
+  rw [mp_body_tail]
+  apply mp_decode_tail b (alnum_ne_cr hal)
+  intro p hp
+  rcases List.mem_append.mp hp with hp | hp
+  · obtain ⟨t, ht, rfl⟩ := List.mem_map.mp hp
+    have hn := hvt t ht
+    exact ⟨⟨hn.1, hn.2.1⟩, fun fn h => (by cases h), fun m h => (by cases h), hft t ht⟩
+  · obtain ⟨f, hfm, rfl⟩ := List.mem_map.mp hp
+    have hfm' : f ∈ files := List.mem_reverse.mp hfm
+    obtain ⟨hn, hfn, hm⟩ := hvf f hfm'
+    refine ⟨⟨hn.1, hn.2.1⟩, fun fn h => ⟨(hfn fn h).1, (hfn fn h).2.1⟩, ?_, hff f hfm'⟩
+    intro m h
+    simp only [Option.some.injEq] at h
+    subst h
+    cases hmime : f.mime with
+    | none => simp only [Option.getD_none]; decide +kernel
+    | some m =>
+      obtain ⟨h1, _, h3, h4⟩ := hm m hmime
+      exact ⟨h1, h3, h4⟩
+
+/-- as a multiset: exactly the parts that were added (texts, then files, in the order of addition) -/
+theorem C15_roundtrip_perm (b : Bytes) (form : MForm) (hf : mpFresh b form) (hv : validNames form) :
+    ∃ ps, decodeMultipart b (mpBody b form) = some ps ∧ ps.Perm (partsAdded form) ∧
+      ps.length = form.texts.length + form.files.length := by
+  refine ⟨parts form, C15_roundtrip b form hf hv, ?_, by simp [parts]⟩
+  exact List.Perm.append_left _ ((List.reverse_perm _).map _)
+
+/-- non-vacuity: the form of `C15.form` — a value with a delimiter look-alike of boundary `B8`, an
+    empty name with an empty value, binary file data with CR LF `--`, a file name with `;`, data that
+    looks like a close delimiter without CRLF — under boundary `B7` -/
+theorem C15.form_fresh : mpFresh (str "B7") C15.form := by
+  unfold mpFresh; decide +kernel
+
+theorem C15.form_valid : validNames C15.form := by
+  refine ⟨by unfold noQuoteCRLF; decide +kernel, ?_⟩
+  intro f hf
+  have : f = C15.form.files[0] ∨ f = C15.form.files[1] := by
+    simpa [C15.form] using hf
+  rcases this with rfl | rfl
+  · refine ⟨by unfold noQuoteCRLF; decide +kernel, ?_, ?_⟩
+    · intro fn h
+      have : fn = str "a;b.bin" := by simpa [C15.form] using h.symm
+      subst this; unfold noQuoteCRLF; decide +kernel
+    · intro m h; simp [C15.form] at h
+  · refine ⟨by unfold noQuoteCRLF; decide +kernel, ?_, ?_⟩
+    · intro fn h; simp [C15.form] at h
+    · intro m h
+      have : m = str "text/plain; charset=utf-8" := by simpa [C15.form] using h.symm
+      subst this; decide +kernel
+
+example : decodeMultipart (str "B7") (mpBody (str "B7") C15.form) =
+    some [⟨str "k", none, none, str "v\r\n--B8\r\n"⟩, ⟨[], none, none, []⟩,
+      ⟨str "g", none, some (str "text/plain; charset=utf-8"), str "--B7--"⟩,
+      ⟨str "f", some (str "a;b.bin"), some (str "application/octet-stream"), [0, 13, 10, 45, 45, 255]⟩] := by
+  rw [C15_roundtrip _ _ C15.form_fresh C15.form_valid]
+  decide +kernel
+
+example : ∃ ps, decodeMultipart (str "B7") (mpBody (str "B7") C15.form) = some ps ∧
+    ps.Perm (partsAdded C15.form) ∧ ps.length = 4 :=
+  C15_roundtrip_perm _ _ C15.form_fresh C15.form_valid
+
+/-- the empty form -/
+example : decodeMultipart (str "B7") (mpBody (str "B7") ⟨[], []⟩) = some [] :=
+  C15_roundtrip _ _ ⟨by decide +kernel, by decide +kernel, by simp, by simp⟩ ⟨by simp, by simp⟩
+
+/-- the freshness hypothesis is necessary: a value containing the delimiter (here because the
+    boundary `B` is a prefix of the look-alike's `B8`) is cut there and the rest is misread -/
+example : decodeMultipart (str "B") (mpBody (str "B") ⟨[(str "k", str "v\r\n--B8\r\n")], []⟩) = none := by
+  decide +kernel
+
+/-- The statement with `validNames` as first phrased — MIME strings only free of CR / LF — is false
+    for the RFC decoder, which skips optional whitespace in front of a field value: a MIME string
+    that starts with a blank comes back without it.  (`Mime`'s `Display` never starts with a blank,
+    which is what `validNames` adds.) -/
+def validNamesWeak (form : MForm) : Prop :=
+  (∀ t ∈ form.texts, noQuoteCRLF t.1) ∧
+  (∀ f ∈ form.files, noQuoteCRLF f.name ∧ (∀ fn, f.filename = some fn → noQuoteCRLF fn) ∧
+    (∀ m, f.mime = some m → (13 : UInt8) ∉ m ∧ (10 : UInt8) ∉ m))
+
+def C15_roundtrip_full : Prop :=
+  ∀ (b : Bytes) (form : MForm), mpFresh b form → validNamesWeak form →
+    decodeMultipart b (mpBody b form) = some (parts form)
+
+theorem C15_roundtrip_full_refuted : ¬ C15_roundtrip_full := by
+  intro h
+  have := h (str "B7") ⟨[], [{ name := str "f", data := [], filename := none, mime := some (str " x") }]⟩
+    (by unfold mpFresh; decide +kernel)
+    ⟨by simp, by
+      intro f hf
+      have : f = { name := str "f", data := [], filename := none, mime := some (str " x") } := by
+        simpa using hf
+      subst this
+      refine ⟨by unfold noQuoteCRLF; decide +kernel, fun fn h => by simp at h, ?_⟩
+      intro m h
+      have : m = str " x" := by simpa using h.symm
+      subst this; decide +kernel⟩
+  revert this
+  decide +kernel
+
+/-- the closest true statement is `C15_roundtrip` itself (same conclusion, `validNames` instead of
+    `validNamesWeak`) -/
+theorem C15_roundtrip_partial (b : Bytes) (form : MForm) (hf : mpFresh b form) (hv : validNames form) :
+    decodeMultipart b (mpBody b form) = some (parts form) := C15_roundtrip b form hf hv
+
 /-! ### (d) how many boundaries can collide with a given data -/
 
 /-- each occurrence position determines the boundary -/
@@ -164,6 +287,12 @@ theorem C15_collision_count (data : Bytes) (Bs : List Bytes) (hnd : Bs.Nodup)
 /-- non-vacuity: a data with two delimiter look-alikes; both boundaries collide, and no third can -/
 example : occursIn (mpDelim (str "0123456789abcdef")) (str "x\r\n--0123456789abcdefgh\r\n--123456789abcdefgh") = true := by
   decide +kernel
+example : [str "0123456789abcdef", str "123456789abcdefg"].length ≤
+    (str "x\r\n--0123456789abcdefgh\r\n--123456789abcdefgh").length :=
+  C15_collision_count _ _ (by decide +kernel) (by
+    intro B hB
+    have : B = str "0123456789abcdef" ∨ B = str "123456789abcdefg" := by simpa using hB
+    rcases this with rfl | rfl <;> exact ⟨by decide +kernel, by decide +kernel⟩)
 example : ∃ i, i < 10 ∧ (str "AAAAAAAAAAAAAAAA") = ((str "\r\n--AAAAAAAAAAAAAAAA").drop (i + 4)).take 16 :=
   ⟨0, by decide, by decide +kernel⟩
 
